@@ -208,4 +208,98 @@ theorem iterStep_succ_apply (f : Str → Str) (n : Nat) (u : Str) :
   | succ n ih => exact ih (f u)
 
 
+/-! ## the function reads its argument through the cleaned url only -/
+
+/-- two strings with the same cleaned form are resolved alike: both follow the same target, or
+each is returned as it is (for ANY target function) -/
+theorem inferOf_clean_congr (target : Str → Option Str) (a b : Str) (h : cleanedUrl a = cleanedUrl b) :
+    inferOf target a = inferOf target b ∨ (inferOf target a = a ∧ inferOf target b = b) := by
+  rw [inferOf, inferOf.eq_def target b, h]
+  cases target (cleanedUrl b) with
+  | none => exact Or.inr ⟨rfl, rfl⟩
+  | some t =>
+    by_cases ht : t.length < (cleanedUrl b).length
+    · left
+      show (if t.length < (cleanedUrl b).length then inferOf target t else a) =
+        (if t.length < (cleanedUrl b).length then inferOf target t else b)
+      rw [if_pos ht, if_pos ht]
+    · right
+      show (if t.length < (cleanedUrl b).length then inferOf target t else a) = a ∧
+        (if t.length < (cleanedUrl b).length then inferOf target t else b) = b
+      rw [if_neg ht, if_neg ht]; exact ⟨rfl, rfl⟩
+
+/-- `infer_redirection(a)` and `infer_redirection(b)` for `a`, `b` with the same cleaned form -/
+theorem infer_clean_congr (a b : Str) (h : cleanedUrl a = cleanedUrl b) :
+    infer a = infer b ∨ (infer a = a ∧ infer b = b) :=
+  inferOf_clean_congr inferTarget a b h
+
+/-- nothing found in the cleaned url: the argument comes back as it is -/
+theorem infer_eq_self_of_clean (u : Str) (h1 : domainSplit (cleanedUrl u) = none)
+    (h2 : redirectSearch (cleanedUrl u) = none) : infer u = u := by
+  unfold infer
+  rw [inferOf]
+  simp [inferTarget, h1, h2]
+
+/-! ## the cleaned form of a url with a clean literal prefix -/
+
+/-- a prefix the cleaning leaves alone: non-empty, no control character, neither starting nor
+ending with whitespace (decidable: `by decide` for a literal) -/
+def cleanEnds (P : Str) : Bool :=
+  !P.isEmpty && P.all (fun c => !UrlParts.isControlChar c) && !(P.head?.any isSpace) &&
+    !(P.getLast?.any isSpace)
+
+theorem rstrip_prefix (A x : Str) (hne : A ≠ [])
+    (hl : ∀ c, A.getLast? = some c → isSpace c = false) : rstrip (A ++ x) = A ++ rstrip x := by
+  unfold rstrip
+  rw [List.reverse_append, List.dropWhile_append]
+  split
+  · rename_i he
+    have hx : List.dropWhile isSpace x.reverse = [] := by simpa using he
+    rw [hx]
+    have : List.dropWhile isSpace A.reverse = A.reverse := by
+      cases hr : A.reverse with
+      | nil => simp at hr; exact absurd hr hne
+      | cons c cs =>
+        have : A.getLast? = some c := by rw [← List.head?_reverse, hr]; rfl
+        simp [hl c this]
+    rw [this]; simp
+  · simp
+
+theorem stripControl_append (a b : Str) :
+    UrlParts.stripControl (a ++ b) = UrlParts.stripControl a ++ UrlParts.stripControl b := by
+  simp [UrlParts.stripControl, List.filter_append]
+
+theorem mem_of_mem_stripControl {c : Char} {s : Str} (h : c ∈ UrlParts.stripControl s) : c ∈ s :=
+  (List.mem_filter.mp h).1
+
+theorem mem_of_mem_rstrip {c : Char} {s : Str} (h : c ∈ rstrip s) : c ∈ s := by
+  unfold rstrip at h
+  have := (List.dropWhile_sublist isSpace (l := s.reverse)).subset (List.mem_reverse.mp h)
+  exact List.mem_reverse.mp this
+
+/-- behind a clean prefix only the tail is cleaned: its control characters go, and its trailing
+whitespace -/
+theorem cleanedUrl_prefix (P s : Str) (hP : cleanEnds P = true) :
+    cleanedUrl (P ++ s) = P ++ rstrip (UrlParts.stripControl s) := by
+  unfold cleanEnds at hP
+  simp only [Bool.and_eq_true, Bool.not_eq_true', List.all_eq_true] at hP
+  obtain ⟨⟨⟨hne, hctl⟩, hhead⟩, hlast⟩ := hP
+  have hne' : P ≠ [] := by intro e; rw [e] at hne; simp at hne
+  unfold cleanedUrl strip lstrip
+  have e1 : UrlParts.stripControl P = P := by
+    unfold UrlParts.stripControl
+    rw [List.filter_eq_self]; intro c hc; simp [hctl c hc]
+  rw [stripControl_append, e1]
+  have e2 : List.dropWhile isSpace (P ++ UrlParts.stripControl s) = P ++ UrlParts.stripControl s := by
+    cases P with
+    | nil => exact absurd rfl hne'
+    | cons c cs =>
+      have : isSpace c = false := by simpa using hhead
+      simp [this]
+  rw [e2]
+  apply rstrip_prefix _ _ hne'
+  intro c hc
+  rw [hc] at hlast
+  simpa using hlast
+
 end Ural
